@@ -369,9 +369,9 @@ class Engine:
     def group_plan(self):
         rows = self.rules.ROW_IDS
         if self.tier == "thorough":
-            plan = [("legal", 1000), ("pairs", 100000), ("families", 100000), ("limits", 100000), ("arity", 100000)] + [("row:" + r, 30) for r in rows] + [("free", 700)]
+            plan = [("legal", 1000), ("pairs", 100000), ("families", 100000), ("limits", 100000), ("arity", 100000), ("returns", 100000)] + [("row:" + r, 30) for r in rows] + [("free", 700)]
         else:
-            plan = [("legal", 75), ("pairs", 100000), ("families", 100000), ("limits", 100000), ("arity", 100000)] + [("row:" + r, 3) for r in rows] + [("free", 40)]
+            plan = [("legal", 75), ("pairs", 100000), ("families", 100000), ("limits", 100000), ("arity", 100000), ("returns", 100000)] + [("row:" + r, 3) for r in rows] + [("free", 40)]
         return plan
 
     def hyp_settings(self, n, shrink):
@@ -383,6 +383,8 @@ class Engine:
     def collect(self, group, n, seed):
         if group == "families":
             return self.gen.legal_family_programs()
+        if group == "returns":
+            return self.gen.legal_return_programs()
         if group == "arity":
             return self.gen.arity_programs()
         if group == "limits":
@@ -635,7 +637,7 @@ class Engine:
             p, g, cname, std, exp, got = dis[0]
             n, s = seeds[g]
             # enumerated pair programs are minimal already (two clauses): nothing to shrink
-            m = p if g in ("pairs", "families", "limits", "arity") else self.shrink(g, n, s, cname, std)
+            m = p if g in ("pairs", "families", "limits", "arity", "returns") else self.shrink(g, n, s, cname, std)
             done = set()
             if m is not None:
                 agree, exp2, got2 = self.single_check(m, cname, std)
